@@ -670,9 +670,15 @@ pub fn run_check(chk: &dyn Check, tier: Tier, base_seed: u64) -> i32 {
     // ---- evidence
     let wall = t0.elapsed().as_secs_f64();
     let mut samples: Vec<Value> = vec![];
-    for i in 0..3u64 {
-        if i < total {
-            samples.push(chk.case_of_seed(mix(base_seed, tag, i)));
+    // the first three cases of the run that are small enough to read (a big-book or
+    // long-history case would be hundreds of kilobytes)
+    for i in 0..64u64 {
+        if i >= total || samples.len() >= 3 {
+            break;
+        }
+        let c = chk.case_of_seed(mix(base_seed, tag, i));
+        if c.to_string().len() <= 12_000 {
+            samples.push(c);
         }
     }
     let evaluations = acc.evaluations + acc.inner_evals + once_evals;
